@@ -889,6 +889,44 @@ def total9(ctx) -> List[Ob]:
                 g = _guard_key(fn, n)
                 key = _raise_key(n) + (" under " + g if g else "")
                 out.append(bad("TOTAL-9", fn.qualname, key, ctx.where(fn, n), f"'{A.unparse(n)[:50]}' can be reached while rendering (under: {g or 'no condition'})"))
+            elif isinstance(n, ast.Subscript) and isinstance(n.ctx, ast.Load) and not isinstance(n.slice, ast.Slice):
+                # an element taken by position from a sequence of unknown length (a block's statement list may be empty:
+                # the entry block of a function that starts with a loop)
+                idx = n.slice.operand if isinstance(n.slice, ast.UnaryOp) and isinstance(n.slice.op, ast.USub) else n.slice
+                if not (isinstance(idx, ast.Constant) and isinstance(idx.value, int) and not isinstance(idx.value, bool)):
+                    continue
+                env = ctx.typer.env(fn)
+                t = ctx.typer.type_of(n.value, env, fn)
+                kinds = {m[0] for m in T.members(T.strip_none(t))}
+                if not kinds or not kinds <= {"list", "tuplev"}:
+                    continue
+                base = A.unparse(n.value)
+                # (a list built in this function by a display with elements is not of unknown length)
+                if isinstance(n.value, ast.Name):
+                    dv = [d.stmt.value for d in ctx.cfg(fn).reaching_defs(n, n.value.id) if d.stmt is not None and isinstance(d.stmt, ast.Assign)]
+                    if dv and all(isinstance(v, (ast.List, ast.Tuple)) and len(v.elts) > (idx.value if n.slice is idx else idx.value - 1) for v in dv):
+                        continue
+                gs = _use_guards(fn.node, n)
+                nonempty = {base, f"len({base}) > 0", f"len({base})"}
+                guarded = any(p and t_ in nonempty for t_, p in gs) or any(not p and t_ in (f"len({base}) == 0",) for t_, p in gs)
+                # `X and X[-1]` / `if X and isinstance(X[-1], ..)`
+                for a in A.ancestors(n):
+                    if isinstance(a, ast.BoolOp) and isinstance(a.op, ast.And) and any(A.unparse(v) in nonempty for v in a.values[:-1]):
+                        guarded = True
+                    if isinstance(a, ast.stmt):
+                        break
+                for t_, p in gs:
+                    try:
+                        e_ = ast.parse(t_, mode="eval").body
+                    except SyntaxError:
+                        continue
+                    if p and isinstance(e_, ast.BoolOp) and isinstance(e_.op, ast.And) and any(A.unparse(v) in nonempty for v in e_.values):
+                        guarded = True
+                key = f"element {A.alpha_key(n)} of a sequence of unknown length"
+                if guarded:
+                    out.append(ok("TOTAL-9", fn.qualname, key, ctx.where(fn, n), f"'{A.unparse(n)}' under a guard that {base} is not empty"))
+                else:
+                    out.append(bad("TOTAL-9", fn.qualname, key, ctx.where(fn, n), f"'{A.unparse(n)[:50]}' raises IndexError when {base} is empty (the entry block of a function that starts with a loop keeps an empty statement list): rendering rejects a graph the library produced"))
     return out
 
 
@@ -1012,6 +1050,8 @@ def use1(ctx) -> List[Ob]:
                 defs = cfg.reaching_defs(e)
                 if cfg.entry not in defs:
                     continue
+                if _walrus_before(e, z.stmt):
+                    continue  # (n := X) in table[n]: bound earlier in the same expression, unconditionally
                 # a definition in the same statement (for-loop target, with-as, walrus) counts
                 if e.id in cfg.defs_at(z) and z.kind in ("for", "with"):
                     continue
@@ -1032,6 +1072,38 @@ def use1(ctx) -> List[Ob]:
                 out.append(bad("USE-1", fn.qualname, f"read of {e.id}", ctx.where(fn, e), f"local '{e.id}' is read at line {A.lineno(e)} but {why}: NameError / UnboundLocalError on the other paths"))
         out.append(ok("USE-1", fn.qualname, "locals defined before use", ctx.where(fn), f"{len(locals_)} locals", nontrivial=False))
     return out
+
+
+def _walrus_before(e: ast.Name, stmt: ast.AST) -> bool:
+    """the name is bound by an assignment expression that is evaluated before this read whenever the read is
+    evaluated: written to its left inside the same statement, and not in an operand / arm that the read's own
+    position does not depend on (a later operand of and / or, an arm of a conditional expression)"""
+    pos = (getattr(e, "lineno", 0), getattr(e, "col_offset", 0))
+    anc_e = [e] + list(A.ancestors(e))
+    for w in ast.walk(stmt):
+        if not (isinstance(w, ast.NamedExpr) and isinstance(w.target, ast.Name) and w.target.id == e.id):
+            continue
+        if (getattr(w, "lineno", 0), getattr(w, "col_offset", 0)) >= pos:
+            continue
+        child = w
+        conditional = False
+        for a in A.ancestors(w):
+            if any(a is x for x in anc_e):
+                # common ancestor: an `and` / `or` whose later operand holds the read is fine (the read runs only
+                # if the earlier operand ran); a comparison / call / subscript evaluates left to right
+                if isinstance(a, ast.IfExp) and child is not a.test:
+                    conditional = True
+                break
+            if isinstance(a, ast.BoolOp) and a.values and child is not a.values[0]:
+                conditional = True
+            if isinstance(a, ast.IfExp) and child is not a.test:
+                conditional = True
+            if isinstance(a, (ast.ListComp, ast.SetComp, ast.DictComp, ast.GeneratorExp, ast.Lambda)):
+                conditional = True  # another scope / evaluated per element: not decided here
+            child = a
+        if not conditional:
+            return True
+    return False
 
 
 def _class_has_attr(ctx, c, attr: str) -> bool:
